@@ -17,8 +17,9 @@ class Recorder:
     """program: dict event-index -> answer (int); default 0 (continue).  query=True makes the callbacks interrogate
     the handles they receive."""
 
-    def __init__(self, L, program=None, query=True, parse_mode=False, answer_fn=None, loop_start_hook=None):
+    def __init__(self, L, program=None, query=True, parse_mode=False, answer_fn=None, loop_start_hook=None, omit=()):
         self.L = L
+        self.omit = frozenset(omit)                 # callback kinds whose handler member stays NULL
         self.loop_start_hook = loop_start_hook      # called with the loop handle before it is queried (parse time)
         self.program = program or {}
         self.answer_fn = answer_fn
@@ -40,6 +41,8 @@ class Recorder:
         h.packet_start = self._mk(CB_PKT, 'packet_start', self._pkt)
         h.packet_end = self._mk(CB_PKT, 'packet_end', self._pkt)
         h.item = self._mk_item()
+        for kind in self.omit:
+            setattr(h, kind, type(getattr(h, kind))())
         self.handler = h
 
     def _answer(self, kind, payload):
@@ -118,7 +121,7 @@ class Recorder:
         return tuple(names)
 
 
-def walk(L, cif, program=None, query=True, answer_fn=None):
-    rec = Recorder(L, program, query, answer_fn=answer_fn)
+def walk(L, cif, program=None, query=True, answer_fn=None, omit=()):
+    rec = Recorder(L, program, query, answer_fn=answer_fn, omit=omit)
     rc = L.call('cif_walk', cif, C.byref(rec.handler), None)
     return rc, rec
